@@ -13,21 +13,30 @@ ALPHA = 'abzABZ019 \t,;:()=+-$%\'"""'
 
 
 def impl_lines(lines):
-    """PrettierCli.processLine on each line, in-process"""
-    import io
-    import contextlib
+    """the tool on each line (given with its final newline), through its command line only (`run()` as a filter of standard input,
+    the way `moto_prettier < file` works): no private method of the implementation is called, so that a refactoring of its
+    internals cannot disturb the check; lines are sent in batches, and one by one when a batch does not come back line for line"""
     from moto_prettier.prettier import PrettierCli
-    cli = PrettierCli()
-    cli.args = None
+
+    def through_cli(chunk):
+        status, out = run_cli(PrettierCli().run, [], stdin_text="".join(chunk))
+        if status != "ok0":
+            return None
+        got = out.split("\n")
+        if got and got[-1] == "":
+            got.pop()
+        return [g + "\n" for g in got]
+
     out = []
-    for l in lines:
-        buf = io.StringIO()
-        try:
-            with contextlib.redirect_stdout(buf):
-                cli.processLine(l)
-            out.append(buf.getvalue())
-        except Exception as e:
-            out.append("EXC:" + type(e).__name__)
+    for i in range(0, len(lines), 2000):
+        chunk = lines[i:i + 2000]
+        got = through_cli(chunk)
+        if got is not None and len(got) == len(chunk):
+            out += got
+            continue
+        for l in chunk:
+            g = through_cli([l])
+            out.append("EXC:failed" if g is None else "".join(g))
     return out
 
 
@@ -53,13 +62,18 @@ def check_lines(res, stream, lines):
             res.violate(stream, "not idempotent", {"line": l}, {"once": i, "twice": i2}, {"clause": "idempotent"})
 
 
-def cli_case(ctx, res, texts, use_stdin):
+def cli_case(ctx, res, texts, use_stdin, as_filter=False):
     """files and stdin through PrettierCli.run; line count/order and content"""
     from moto_prettier.prettier import PrettierCli
     st = res.stream("cli")
     d = ctx.fresh_dir()
     argv = []
+    if as_filter:
+        texts = texts[:1]       # no file argument at all: a filter of standard input
+        use_stdin = True
     for k, t in enumerate(texts):
+        if as_filter:
+            break
         if use_stdin and k == len(texts) - 1:
             argv.append("-")
         else:
@@ -82,6 +96,19 @@ def cli_case(ctx, res, texts, use_stdin):
     n_in = sum(len(t.replace("\r\n", "\n").replace("\r", "\n").splitlines(keepends=True) if False else
                    [x for x in t.replace("\r\n", "\n").replace("\r", "\n").split("\n")][: -1 if t.replace("\r\n", "\n").replace("\r", "\n").endswith("\n") or t == "" else None])
                for t in texts)
+    # the property itself on what the tool printed: every input line through the character automaton of the specification
+    in_lines = []
+    for t in texts:
+        u = t.replace("\r\n", "\n").replace("\r", "\n").split("\n")
+        if u and u[-1] == "":
+            u.pop()
+        in_lines += u
+    if status == "ok0" and in_lines and out.count("\n") == n_in:
+        want = "".join(uncps(x) + "\n" for x in drv([f"spec.upper {cps(l)}" for l in in_lines]))
+        if out != want:
+            k = next((j for j, (a, b) in enumerate(zip(out.split("\n"), want.split("\n"))) if a != b), 0)
+            res.violate("cli", "output differs from the quote automaton", {"texts": texts, "stdin": use_stdin, "filter": as_filter},
+                        {"line": in_lines[min(k, len(in_lines) - 1)], "impl": out.split("\n")[k], "spec": want.split("\n")[k]}, {"clause": "automaton_cli"})
     if status == "ok0" and out.count("\n") != n_in:
         res.violate("cli", "number of lines changed", {"texts": texts, "stdin": use_stdin},
                     {"in": n_in, "out": out.count("\n")}, {"clause": "line_count"})
@@ -123,5 +150,19 @@ def run(ctx, res):
             eol = ctx.rng.choice(["\n", "\n", "\r\n", "\r"])
             t = eol.join(ls) + (eol if ctx.rng.random() < 0.7 and ls else "")
             texts.append(t)
-        cli_case(ctx, res, texts, use_stdin=ctx.rng.random() < 0.4)
+        r = ctx.rng.random()
+        cli_case(ctx, res, texts, use_stdin=r < 0.3, as_filter=0.3 <= r < 0.5)
     res.sample({"cli_texts": texts})
+    # files in UTF-8 with letters beyond ASCII inside string literals (reproduced unchanged, also when the text comes from a
+    # file), indented lines and trailing blanks (every position kept), whole words — keywords, REM lines — outside literals
+    words = ["rem", "print", "goto", "a", "B1", "x$", "10", "20", "for", "next", "rem written by me", "Rem"]
+    lits = ['"Entr\u00e9e"', '"\u00e9t\u00e9 \u00df \u0153"', '"a"', '""', '"rem print"', '"unterminated \u00e9']
+    for _ in range(ctx.n(40, 300)):
+        ls = []
+        for _ in range(ctx.rng.choice([1, 2, 4])):
+            parts = [ctx.rng.choice(words) if ctx.rng.random() < 0.65 else ctx.rng.choice(lits[:-1]) for _ in range(ctx.rng.choice([1, 2, 4]))]
+            line = ctx.rng.choice(["", " ", "   ", "\t"]) + ctx.rng.choice([" ", ":", ";", "  "]).join(parts) + ctx.rng.choice(["", " ", "  ", " " + lits[-1], " " + lits[-1] + "  "])
+            ls.append(line)
+        t = "\n".join(ls) + "\n"
+        r = ctx.rng.random()
+        cli_case(ctx, res, [t], use_stdin=r < 0.3, as_filter=0.3 <= r < 0.6)
